@@ -152,8 +152,18 @@ def _check_batch(ctx, pairs, ref, hyp, eos, include_eos, cost, tier, tag, seed, 
                     tag, seed, sigma, variant + "+grad")
 
 
-def _check_loss(ctx, pairs, effs, ref, hyp, logits, eos, include_eos, cost, tier, tag, seed, sigma, variant):
+def _check_loss(ctx, pairs, effs, ref, hyp, logits, eos, include_eos, cost, tier, tag, seed, sigma, variant,
+                sub=False):
     N, H, V = len(pairs), hyp.size(0), 3
+    keep = [n for n in range(len(pairs)) if len(effs[n][1]) > 0]
+    if not sub and 0 < len(keep) < N:
+        # with an eos some hypotheses of the all-pairs batch have no counted token, which leaves the reduced losses
+        # of the whole batch unconstrained; the sub-batch of the constrained columns (it still holds EMPTY REFERENCES,
+        # whose prefixes have no target at all, next to ordinary ones) is constrained in every reduction
+        idx = torch.tensor(keep)
+        _check_loss(ctx, [pairs[n] for n in keep], [effs[n] for n in keep], ref[:, idx], hyp[:, idx],
+                    logits.detach()[:, idx].clone().requires_grad_(logits.requires_grad), eos, include_eos, cost, tier,
+                    tag, seed, sigma, variant, sub=True)
     lsm = torch.log_softmax(logits.detach().double(), -1).tolist()
     weights = [None, [0.5, 2.0, 1.0], [0.0, 1.0, 1.0]] if tier == "thorough" else [None, [0.0, 2.0, 1.0]]
     for batch_first, reduction, weight in itertools.product((False, True), ("none", "sum", "mean"), weights):
@@ -165,8 +175,12 @@ def _check_loss(ctx, pairs, effs, ref, hyp, logits, eos, include_eos, cost, tier
                   ignore_index=(-2 if (batch_first or weight is not None) else 5))  # 5: a positive unused id
         wt = None if weight is None else torch.tensor(weight)
         case = {"kind": "ocd-loss", "tag": tag, "R": ref.size(0), "H": H, "seed": seed, "weight": weight,
-                "reversed": tag.endswith("reversed"), "sigma": list(sigma), "logits": variant, **kw}
+                "reversed": tag.endswith("reversed"), "sigma": list(sigma), "logits": variant,
+                "counted_hyps_only": sub, **kw}
         ctx.case(1, 1)
+        if sub:
+            ctx.count("loss_calls_on_batches_with_empty_references",
+                      1 if any(len(e[0]) == 0 for e in effs) else 0)
         try:
             out = F.hard_optimal_completion_distillation_loss(l_in, r_in, h_in, weight=wt, warn=False, **kw)
         except Exception as e:
@@ -200,6 +214,11 @@ def _check_loss(ctx, pairs, effs, ref, hyp, logits, eos, include_eos, cost, tier
                               {"expected": exp[j][n], "observed": o[j][n]})
         elif all(constrained):
             tot = sum(exp[j][n] for j in range(H) for n in range(N))
+            if not math.isfinite(out.item()):
+                ctx.violation({"api": "hard_ocd_loss", "symptom": "non-finite-reduced-loss", "reduction": reduction,
+                               "has_empty_reference": any(len(e[0]) == 0 for e in effs)}, case,
+                              {"observed": out.item(), "sum_of_step_losses": tot})
+                continue
             if reduction == "sum":
                 if not S.close(out.item(), tot, 1e-4):
                     ctx.violation({"api": "hard_ocd_loss", "symptom": "wrong-sum"}, case,
